@@ -1368,6 +1368,15 @@ func runC06() {
 	}
 	Settle(m)
 	Settle(m)
+	// A receiver that lags behind (starved goroutines, several-hundred-route
+	// announcements every few seconds) is given five more minutes to catch up
+	// before a missing route counts: a route that was dropped stays missing.
+	for waited := 0; waited < 30 && !c06Complete(m, dyn); waited++ {
+		simrt.Sleep(10 * time.Second)
+		if waited == 0 {
+			simrt.Probe("c06_receiver_lagging_at_first_look")
+		}
+	}
 	for j, od := range m.Nodes {
 		o := m.OriginatedBy(j)
 		want := map[string]bool{"agent|" + od.Name: true}
@@ -1424,6 +1433,43 @@ func runC06() {
 		}
 	}
 	m.StopAll()
+}
+
+// c06Complete reports whether every agent holds every route every other agent originates.
+func c06Complete(m *Mesh, dyn map[int][]string) bool {
+	for j, od := range m.Nodes {
+		o := m.OriginatedBy(j)
+		want := []string{"agent|" + od.Name}
+		for _, c := range o.CIDR {
+			want = append(want, "cidr|"+c)
+		}
+		for _, c := range dyn[j] {
+			want = append(want, "cidr|"+c)
+		}
+		for _, d := range o.Domain {
+			want = append(want, "domain|"+d)
+		}
+		for _, f := range o.Forward {
+			want = append(want, "forward|"+f)
+		}
+		for i := range m.Nodes {
+			if i == j {
+				continue
+			}
+			got := map[string]bool{}
+			for _, r := range m.RoutesAt(i) {
+				if r.Origin == od.ID {
+					got[r.Table+"|"+r.Key] = true
+				}
+			}
+			for _, w := range want {
+				if !got[w] {
+					return false
+				}
+			}
+		}
+	}
+	return true
 }
 
 func make63(c byte) []byte {
